@@ -332,12 +332,12 @@ def check(ctx):
         if pool.cut:
             ctx.cut = True
     cov = {
-        "evaluations": agg["runs"], "distinct_nontrivial": agg["funcs"],
+        "evaluations": agg["runs"], "distinct_nontrivial": agg["nontrivial"],
         "states": nfun, "transitions": agg["runs"], "traces_validated_against_impl": agg["funcs"],
         "rule": "%d statement shapes x 2 renderings x original-indentation variants (6 uniform, every 1-deviation%s, comment-before-statement "
                 "variants) = %d functions, packed 30 per file, x %d configurations (indent_columns x indent_with_tabs x output_tab_size), each "
                 "function compared with its canonical rendering; plus the differential clause under %d brace/case option variants; "
-                "distinct_nontrivial = (function, configuration) pairs judged" % (len(shapes), "" if quick else ", every 2-deviation on small shapes", nfun, len(prod), len(opt_variants)),
+                "distinct_nontrivial = executions whose output differs from the input (every file is mis-indented on purpose); function_config_pairs = (function, configuration) pairs judged" % (len(shapes), "" if quick else ", every 2-deviation on small shapes", nfun, len(prod), len(opt_variants)),
         "samples": [{"shape": cgen.render_one(shapes[7]), "variant": "dev1:3:'\\t'", "config": prod[3]}, {"shape": cgen.render_one(shapes[40])}],
         "functions": nfun, "configurations": len(prod), "function_config_pairs": agg["funcs"],
     }
